@@ -170,6 +170,11 @@ pub trait Prop: Sync {
     fn case_identity(&self, case: &Value) -> String {
         case.to_string()
     }
+    /// true when one observed violation is a proof by itself and may not show again on replay (C18: two different
+    /// byte strings for one input; whether a replay hits the same hash order or process history is chance)
+    fn observation_is_proof(&self) -> bool {
+        false
+    }
     fn enumerate(&self, tier: Tier, sink: &mut Sink);
     fn run(&self, case: &Value) -> Outcome;
 }
@@ -1026,6 +1031,9 @@ pub fn coordinator_main(prop: &dyn Prop, tier: Tier, seed: u64) -> i32 {
             }
         }
         if confirmations == 2 {
+            violation_lines.push(format!("VIOLATION property={id} replay={path}"));
+        } else if prop.observation_is_proof() {
+            println!("NOTE: {sig} was observed in the run and reproduced {confirmations}/2 times on replay (the observation is the counterexample)");
             violation_lines.push(format!("VIOLATION property={id} replay={path}"));
         } else {
             machinery.push(format!(
